@@ -63,11 +63,27 @@ type LogDS struct {
 	*ds.MapDatastore
 	Log []Write
 	IDs *IDMap
+	// scripted I/O failure: the write attempt number FailAt (0-based, counted over Put and Delete
+	// since the last ResetAttempts) returns ErrInjected and changes nothing; -1 = never
+	FailAt, attempt int
 }
 
-func NewLogDS(ids *IDMap) *LogDS { return &LogDS{MapDatastore: ds.NewMapDatastore(), IDs: ids} }
+var ErrInjected = errors.New("injected datastore failure")
+
+func (d *LogDS) fails() bool {
+	a := d.attempt
+	d.attempt++
+	return a == d.FailAt
+}
+
+func NewLogDS(ids *IDMap) *LogDS {
+	return &LogDS{MapDatastore: ds.NewMapDatastore(), IDs: ids, FailAt: -1}
+}
 
 func (d *LogDS) Put(ctx context.Context, k ds.Key, v []byte) error {
+	if d.fails() {
+		return ErrInjected
+	}
 	if ks := k.String(); strings.HasPrefix(ks, "/pins/pin/") {
 		d.IDs.note(path.Base(ks))
 	}
@@ -76,6 +92,9 @@ func (d *LogDS) Put(ctx context.Context, k ds.Key, v []byte) error {
 }
 
 func (d *LogDS) Delete(ctx context.Context, k ds.Key) error {
+	if d.fails() {
+		return ErrInjected
+	}
 	d.Log = append(d.Log, Write{Del: true, Key: k.String()})
 	return d.MapDatastore.Delete(ctx, k)
 }
@@ -332,6 +351,8 @@ func ErrTok(err error) string {
 	}
 	s := err.Error()
 	switch {
+	case errors.Is(err, ErrInjected) || strings.Contains(s, "injected datastore failure"):
+		return "ioerr"
 	case errors.Is(err, context.Canceled) || strings.Contains(s, "context canceled"):
 		return "cancelled"
 	case errors.Is(err, ipfspin.ErrNotPinned):
@@ -360,7 +381,6 @@ func ErrTok(err error) string {
 //
 // ctx: ok | pre (cancelled before the call) | mid (cancelled at the first block fetch of the call)
 func (w *World) Mutate(f []string) (string, []Write) {
-	at := func(i int) int { v, _ := strconv.Atoi(f[i]); return v }
 	ctxKind := f[len(f)-1]
 	ctx, cancel := context.WithCancel(context.Background())
 	defer cancel()
@@ -372,12 +392,28 @@ func (w *World) Mutate(f []string) (string, []Write) {
 	}
 	defer func() { w.dserv.fire = nil }()
 	w.Store.Log = nil
+	tok := w.call(ctx, f)
+	ws := w.Store.Log
+	w.Store.Log = nil
+	return tok, ws
+}
+
+// MutateIO runs one call whose k-th datastore write attempt fails.
+func (w *World) MutateIO(f []string, k int) (string, []Write) {
+	w.Store.FailAt, w.Store.attempt = k, 0
+	defer func() { w.Store.FailAt = -1 }()
+	return w.Mutate(f)
+}
+
+// call runs one API call and returns its result token (the write log is not touched).
+func (w *World) call(ctx context.Context, f []string) string {
+	at := func(i int) int { v, _ := strconv.Atoi(f[i]); return v }
 	var err error
 	switch f[0] {
 	case "pin":
 		c := at(1)
+		w.Present[c] = true // Pin adds the root block before anything else
 		err = w.P.Pin(ctx, w.Nodes[c], at(2) == 1, nameStr(at(3)))
-		w.Present[c] = true
 	case "pinmode":
 		err = w.P.PinWithMode(ctx, w.Cids[at(1)], ipfspin.Mode(at(2)), nameStr(at(3)))
 	case "unpin":
@@ -385,20 +421,62 @@ func (w *World) Mutate(f []string) (string, []Write) {
 	case "update":
 		err = w.P.Update(ctx, w.Cids[at(1)], w.Cids[at(2)], at(3) == 1)
 	case "autosync":
-		old := w.P.(interface{ SetAutosync(bool) bool }).SetAutosync(at(1) == 1)
-		w.Store.Log = nil
-		if old {
-			return "was1", nil
+		if w.P.(interface{ SetAutosync(bool) bool }).SetAutosync(at(1) == 1) {
+			return "was1"
 		}
-		return "was0", nil
+		return "was0"
 	case "flush":
 		err = w.P.Flush(ctx)
 	default:
 		panic("pinh: bad mutation " + f[0])
 	}
+	return ErrTok(err)
+}
+
+// Nested runs call A (a recursive Pin or an Update, live context) and, inside the window in which A
+// has released the pinner lock to fetch blocks (at A's first block fetch), the complete call B on the
+// same goroutine. Returns A's token, B's token ("none" when A never reached its window), B's writes
+// and A's writes.
+func (w *World) Nested(fa, fb []string) (string, string, []Write, []Write) {
+	w.Store.Log = nil
+	tokB := "none"
+	b0, b1 := 0, 0
+	w.dserv.fire = func() error {
+		w.dserv.fire = nil
+		b0 = len(w.Store.Log)
+		tokB = w.call(context.Background(), fb)
+		b1 = len(w.Store.Log)
+		return nil
+	}
+	tokA := w.call(context.Background(), fa)
+	w.dserv.fire = nil
 	ws := w.Store.Log
 	w.Store.Log = nil
-	return ErrTok(err), ws
+	wb := append([]Write(nil), ws[b0:b1]...)
+	wa := append(append([]Write(nil), ws[:b0]...), ws[b1:]...)
+	return tokA, tokB, wb, wa
+}
+
+// ResyncSpec reloads the spec-level pin model from the detailed listings of a dump (used after a
+// nested call, whose outcome the sequential pin model does not predict).
+func (w *World) ResyncSpec(d *Dump) {
+	load := func(tok string) map[int]int {
+		m := map[int]int{}
+		if tok == "" {
+			return m
+		}
+		for _, e := range strings.Split(tok, ",") {
+			p := strings.SplitN(e, ":", 2)
+			c, _ := strconv.Atoi(p[0])
+			nm := 0
+			if q := strings.SplitN(p[1], "/", 2); len(q) == 2 {
+				nm, _ = strconv.Atoi(strings.SplitN(q[1], "|", 2)[0])
+			}
+			m[c] = nm
+		}
+		return m
+	}
+	w.SpecD, w.SpecR = load(d.Lists[1]), load(d.Lists[3])
 }
 
 // ExpectOK tells, from the pin model alone, whether the call must succeed (want) — when the model
@@ -1276,6 +1354,34 @@ func (w *World) Reopen(snap map[string][]byte, ws []Write) *Recovered {
 	rec.Raw, rec.RawStr = w.Raw(st.Snapshot())
 	rec.D = w.QueryLight()
 	return rec
+}
+
+// RebuildWrites: the writes New makes when opened on snap + ws (in order).
+func (w *World) RebuildWrites(snap map[string][]byte, ws []Write) []Write {
+	st := FromSnapshot(snap, ws, w.IDs)
+	p, err := dspinner.New(context.Background(), st, w.dserv)
+	if err != nil {
+		panic("dspinner.New on crash image: " + err.Error())
+	}
+	p.Close()
+	return st.Log
+}
+
+// Plant deletes the pin record of the first pin of cid c in the index of the given mode directly in
+// the datastore (as a partially lost write would): an index entry without its record.
+func (w *World) Plant(c int, mode int) bool {
+	rs, _ := w.Raw(w.Store.Snapshot())
+	idx := rs.R
+	if mode == 1 {
+		idx = rs.D
+	}
+	ids := idx[c]
+	if len(ids) == 0 {
+		return false
+	}
+	sort.Slice(ids, func(i, j int) bool { return w.IDs.m[ids[i]] < w.IDs.m[ids[j]] })
+	w.Store.MapDatastore.Delete(context.Background(), ds.NewKey("/pins/pin/"+ids[0]))
+	return true
 }
 
 // CrashTo makes the crash image the live state (the history continues on the recovered pinner).
